@@ -313,7 +313,9 @@ Proof.
   { eapply (inv_concat_fragid R g1 keep rm _ c av g2 H1 HA); [|exact Hd|exact Hav|exact E2]. rewrite aget_aset_same. now f_equal. }
   destruct (Squash.concat_attr keep rm g2 (S "mapping")) as [g3|] eqn:E3; [|discriminate].
   destruct (SquashProofs.concat_attr_shape _ _ _ _ _ E3) as [val ->].
-  intros H. inversion H; subst. cbn [fst]. apply inv_set_node_attr; [other_key|exact H2].
+  destruct (Squash.hcount_min keep rm _) as [g4|] eqn:E4; [|discriminate]. intros H. inversion H; subst. cbn [fst].
+  assert (fid_inv R (set_node_attr g2 keep (S "mapping") val)) as H3' by (apply inv_set_node_attr; [other_key|exact H2]).
+  destruct (SquashProofs.hcount_min_shape _ _ _ _ E4) as [->|[v ->]]; [exact H3'|apply inv_set_node_attr; [other_key|exact H3']].
 Qed.
 Theorem inv_squash R g g' : fid_inv R g -> Squash.squash_atoms g = Ok g' -> fid_inv R g'.
 Proof.
